@@ -4,6 +4,8 @@
 pub mod be;
 pub mod cmapenc;
 pub mod gposenc;
+pub mod gsubenc;
+pub mod varenc;
 pub mod read;
 pub mod sfnt;
 pub mod tables;
